@@ -814,10 +814,14 @@ package httpserver
 //@   ensures [returns_server] result == s
 //@ func newVHostTrie
 //@   ensures result != nil
+//@ // the key a site is filed under: its address as written, scheme dropped (proved in unit vhost_key)
+//@ func (Address).VHost
+//@   pure
 //@ func NewServer
 //@   requires forall(k, 0, len(group), group[k] != nil)
 //@   at call dynamic#1 before [each_entry_wraps_the_chain_built_from_the_later_ones] 0 <= i && i < len(site.middleware) && callee == site.middleware[i] && arg0 == stack
 //@   at call (*vhostTrie).Insert before [site_is_filed_with_its_complete_chain] i == -1 && site.middlewareChain == stack
+//@   at call (*vhostTrie).Insert before [site_is_filed_under_its_address_as_written] arg1 == site.Addr.VHost() && arg2 == site && arg0 == s.vhosts
 //@   loop 2 invariant -1 <= i && i < len(site.middleware) && site != nil
 
 //@ unit trie_insert frames=on props=C01 nilchecks=on filter=`httpserver\.vhostTrie\)\.(Insert|insertPath)$|httpserver\.getFallbacks$`
